@@ -50,6 +50,10 @@ def gen_parameters(rng):
         extra["AWS::Region"] = rng.choice(["us-east-1", "eu-west-1"])
     if rng.random() < 0.2:
         extra["Unused"] = "u"
+    # values handed over as Python booleans / numbers for names the template does not declare (read through Ref / Fn::ImportValue)
+    if rng.random() < 0.5:
+        extra["CacheEnabled"] = rng.choice([True, False])
+        extra["shared-replicas"] = rng.choice([0, 1, 2, 1.5])
     # declaration order is random
     items = list(decls.items())
     rng.shuffle(items)
@@ -89,7 +93,11 @@ def gen_conditions(rng, n=None, cyclic_ok=True):
         elif k == 2:
             d = {"Fn::Or": [ref() for _ in range(rng.randrange(2, 4))]}
         elif k == 3:
-            d = {"Fn::Equals": [{"Ref": rng.choice(["Env", "AWS::Region", "Flag"])}, rng.choice(["prod", "eu-west-1", "true", "TRUE"])]}
+            d = rng.choice([
+                {"Fn::Equals": [{"Ref": rng.choice(["Env", "AWS::Region", "Flag"])}, rng.choice(["prod", "eu-west-1", "true", "TRUE"])]},
+                {"Fn::Equals": [{"Ref": "CacheEnabled"}, rng.choice(["true", "false", "True", True])]},
+                {"Fn::Equals": [{"Fn::ImportValue": "shared-replicas"}, rng.choice(["0", "1", "1.5", 1])]},
+            ])
         else:
             d = ref()
         defs[name] = d
